@@ -254,12 +254,32 @@ def run_curve_wrappers(ck, facts):
 def run_fx_wrappers(ck, facts):
     if ck.rules.get("R10.7", {}).get("obligations"):
         return            # already evaluated in this run (included by more than one rule module)
-    r7 = ck.rule("R10.7", "the Python-facing FXRates methods are the core methods: rate, update, set_ad_order, get_ccy_index delegate once with their own arguments", floor=4)
+    r7 = ck.rule("R10.7", "the Python-facing FXRates methods are the core methods: rate, update, set_ad_order, get_ccy_index delegate once with their own arguments; fx_array / fx_vector are the stored matrix read row by row for every kind", floor=10)
     P_ = "fx::rates_py::<impl fx::rates::FXRates>::"
     delegates(ck, r7, facts, P_ + "rate_py", "rate", "FXRates::rate_py")
     delegates(ck, r7, facts, P_ + "update_py", "update", "FXRates::update_py")
     delegates(ck, r7, facts, P_ + "set_ad_order_py", "set_ad_order", "FXRates::set_ad_order_py", effect=True)
     delegates(ck, r7, facts, P_ + "get_ccy_index_py", "get_ccy_index", "FXRates::get_ccy_index_py")
+    # the rate table and the base-currency vector handed to Python are the stored matrix read row by row, for every kind of the matrix: out[i][j] = arr[[i, j]],
+    # vector[j] = arr[[0, j]] (a column walk for one kind transposes the table exactly when the derivative order is switched)
+    for var in ("F64", "Dual", "Dual2"):
+        M_ = Sym("matrix")
+        me = Rec("fx::rates::FXRates", {"fx_array": Sym("ctor", var, M_), "currencies": Sym("field", "currencies"), "fx_rates": Sym("field", "fx_rates")})
+        cell = lambda i_, j_: Sym("ctor", var, Sym("cell", vkey(M_), i_.key(), j_.key()))
+        want_arr = cel.Coll(cel.Seq(Sym("axis", vkey(M_), 0), lambda idx: cel.Coll(cel.Seq(Sym("lane", vkey(M_), 0, idx.key()), lambda j_, idx=idx: cell(idx, j_)))))
+        want_vec = cel.Coll(cel.Seq(Sym("lane", vkey(M_), 0, Poly.const(0).key()), lambda j_: cell(Poly.const(0), j_)))
+        for fn_, want in (("fx_array_py", want_arr), ("fx_vector_py", want_vec)):
+            r = facts.fn(P_ + fn_)
+            key = "FXRates::%s[%s]" % (fn_, var)
+            if r is None:
+                ck.fail(r7, key, "getter not found")
+                continue
+            try:
+                got = cel.strip_early(cel.Ev(facts).apply_fn(P_ + fn_, [me], 0))
+                ck.check(r7, key, vkey(got) == vkey(Sym("ctor", "Ok", want)), "%s of a %s matrix is not the stored matrix read row by row: %s" % (fn_, var, cel.vfmt(got)[:300]),
+                         "%s:%d" % (r["file"], r["line"]), sample="out[i][j] = %s(arr[[i, j]])" % var if fn_ == "fx_array_py" else "out[j] = %s(arr[[0, j]])" % var)
+            except Unsupported as e:
+                ck.fail(r7, key, "rule could not be established (%s)" % e, "%s:%d" % (r["file"], r["line"]))
 
 
 def run_spline_wrappers(ck, facts):
